@@ -161,6 +161,43 @@ impl<'tcx> Dumper<'tcx> {
         }
     }
 
+    fn core_fallback(&self, d: DefId) -> bool {
+        let p = self.path(d);
+        const NAMES: &[&str] = &[
+            "::fold", "::try_fold", "::for_each", "::try_for_each", "::all", "::any", "::sum", "::product", "::count",
+            "::position", "::find", "::max", "::min", "::last", "::nth", "::rfold", "::try_rfold",
+        ];
+        (p.starts_with("core::iter::") || p.starts_with("<core::iter::") || p.starts_with("core::slice::iter::")
+            || p.starts_with("<core::slice::") || p.starts_with("<core::ops::Range") || p.starts_with("core::array::"))
+            && NAMES.iter().any(|n| p.ends_with(n))
+    }
+
+    /// how a constant of a monomorphic enum type is laid out: where the directly encoded tag is and which tag value each
+    /// variant has (niche-encoded enums are not described)
+    fn enum_layout(&self, t: Ty<'tcx>, adt: ty::AdtDef<'tcx>) -> J {
+        if t.has_non_region_param() || t.has_aliases() {
+            return J::Null;
+        }
+        let l = match self.tcx.layout_of(TypingEnv::fully_monomorphized().as_query_input(t)) {
+            Ok(l) => l,
+            Err(_) => return J::Null,
+        };
+        match &l.variants {
+            rustc_abi::Variants::Multiple { tag, tag_encoding: rustc_abi::TagEncoding::Direct, tag_field, .. } => {
+                let off = l.fields.offset(tag_field.as_usize()).bytes();
+                let tsize = tag.size(&self.tcx).bytes();
+                let discrs: Vec<J> = adt.discriminants(self.tcx).map(|(_, d)| jstr(format!("{}", d.val))).collect();
+                jobj(vec![
+                    ("tag_offset", jint(off as i128)),
+                    ("tag_size", jint(tsize as i128)),
+                    ("size", jint(l.size.bytes() as i128)),
+                    ("discrs", jarr(discrs)),
+                ])
+            }
+            _ => J::Null,
+        }
+    }
+
     // ---------------------------------------------------------------- types
     fn ty(&mut self, t: Ty<'tcx>) -> usize {
         if let Some(&i) = self.ty_ids.get(&t) {
@@ -266,10 +303,12 @@ impl<'tcx> Dumper<'tcx> {
                 } else {
                     (J::Null, J::Null)
                 };
+                let enum_layout = if adt.is_enum() { self.enum_layout(t, *adt) } else { J::Null };
                 jobj(vec![
                     ("k", jstr("adt")),
                     ("offsets", offs),
                     ("size", size),
+                    ("enum_layout", enum_layout),
                     ("def", jstr(self.path(adt.did()))),
                     ("krate", jstr(self.krate_of(adt.did()))),
                     ("adt_kind", jstr(kind)),
@@ -483,6 +522,12 @@ impl<'tcx> Dumper<'tcx> {
                                 "why",
                                 jstr(if tcx.is_mir_available(d) { "primitive" } else { "no-mir" }),
                             ));
+                            // library combinators whose own MIR can stand in when the primitive table cannot unroll them
+                            // (an iterator of unknown length): dumped as an alternative, never preferred
+                            if kr == "core" && tcx.is_mir_available(d) && self.core_fallback(d) {
+                                let key = self.enqueue(inst, env);
+                                f.push(("res_core", jstr(key)));
+                            }
                         }
                     }
                     InstanceKind::Intrinsic(_) => {
